@@ -42,7 +42,7 @@ fn run(variant: usize) -> CaseOut {
 
 fn stream_query(flavour: Flavour, out: &mut CaseOut) {
     let op = if draw(2) == 0 { "query" } else { "mutation" };
-    let query = gen_operation(op, GenCfg { max_fields: 10, ..GenCfg::default() });
+    let query = gen_operation(op, GenCfg { max_fields: 10, ..GenCfg::default() }.for_flavour(flavour == Flavour::Static));
     set_latency(0, 0);
     let base = run_request("baseline", flavour, 0, &query, Some(Params::default()));
     let Some(base_resp) = base.resp else {
@@ -81,7 +81,7 @@ fn stream_query(flavour: Flavour, out: &mut CaseOut) {
 
 fn subscription(flavour: Flavour, n_ext: usize, out: &mut CaseOut) {
     let n_roots = 1 + draw(3);
-    let (query, roots) = gen_subscription(GenCfg { max_fields: 8, max_depth: 3, typename: false, ..GenCfg::default() }, n_roots, false);
+    let (query, roots) = gen_subscription(GenCfg { max_fields: 8, max_depth: 3, typename: false, ..GenCfg::default() }.for_flavour(flavour == Flavour::Static), n_roots, false);
     // event script: per channel 1-3 events; times from a small set so that ties are common
     let times = [5u64, 5, 6, 8, 8, 20, 21, 60];
     let mut events: Vec<SubEvent> = vec![];
